@@ -3,7 +3,7 @@
    usage: trymut.py <patch.diff> [--tier quick] <ID> [<ID> ...]
 Prints one line per check: DETECTED / MISSED / MACHINERY."""
 import subprocess, sys, os
-REPO = os.environ.get("TRYMUT_REPO", REPO)
+REPO = os.environ.get("TRYMUT_REPO", "/repo")
 ROOT = os.path.dirname(os.path.dirname(os.path.abspath(__file__)))
 args = sys.argv[1:]
 patch = os.path.abspath(args[0]); args = args[1:]
